@@ -98,42 +98,43 @@ def check_case(case, how=("topdown", "call", "plot", "batch")):
             got = {nm: [elems[nm](t) for t in grid] for nm in names}
             compare("call", got, ref, grid, vs, "element(t)", case)
         if "call" in how and not vs and case.get("reparam", True):
-            # the model is re-parameterised after it has been evaluated: numeric initial values and constants change,
-            # and the simulation must be the Euler solution of the model as it is now
+            # the model is re-parameterised after it has been evaluated - first numeric initial values, then constants -
+            # and after each change the simulation must be the Euler solution of the model as it is now
             import copy
             case2 = copy.deepcopy(case)
-            changed = 0
-            for i, s_ in enumerate(case2["stocks"]):
-                if not isinstance(s_["init"], list):
-                    s_["init"] = float(s_["init"]) + 1.5 + i
-                    changed += 1
-            for i, c_ in enumerate(case2["constants"]):
-                if c_["value"] is not None and i % 2 == 0:
-                    c_["value"] = float(c_["value"]) * 0.5 + 0.25
-                    changed += 1
-            ref2 = None
-            if changed:
+            for which in ("init", "const"):
+                changed = []
+                if which == "init":
+                    for i, s_ in enumerate(case2["stocks"]):
+                        if not isinstance(s_["init"], list):
+                            s_["init"] = float(s_["init"]) + 1.5 + i
+                            changed.append(s_)
+                else:
+                    for i, c_ in enumerate(case2["constants"]):
+                        if c_["value"] is not None and i % 2 == 0:
+                            c_["value"] = float(c_["value"]) * 0.5 + 0.25
+                            changed.append(c_)
+                if not changed or vs:
+                    continue
                 try:
                     ref2 = SM.RefModel(case2, limit=1e9).run()
                 except E.Fragile:
-                    ref2 = None
-            if ref2 is not None:
-                for s_ in case2["stocks"]:
-                    if not isinstance(s_["init"], list):
-                        elems[s_["name"]].initial_value = float(s_["init"])
-                for i, c_ in enumerate(case2["constants"]):
-                    if c_["value"] is not None and i % 2 == 0:
-                        elems[c_["name"]].equation = c_["value"]
+                    break
+                for x in changed:
+                    if which == "init":
+                        elems[x["name"]].initial_value = float(x["init"])
+                    else:
+                        elems[x["name"]].equation = x["value"]
                 got = {nm: [elems[nm](t) for t in grid] for nm in names}
-                compare("reparam", got, ref2, grid, vs, "element(t) after new initial values / constants on an evaluated model", case)
+                compare("reparam", got, ref2, grid, vs, "element(t) after new %s on an evaluated model" % ("initial values" if which == "init" else "constants"), case)
                 info["reparam"] = True
-                # back to the generated parameters for the remaining observation points
-                for s_ in case["stocks"]:
-                    if not isinstance(s_["init"], list):
-                        elems[s_["name"]].initial_value = float(s_["init"])
-                for i, c_ in enumerate(case["constants"]):
-                    if c_["value"] is not None and i % 2 == 0:
-                        elems[c_["name"]].equation = c_["value"]
+            # back to the generated parameters for the remaining observation points
+            for s_ in case["stocks"]:
+                if not isinstance(s_["init"], list):
+                    elems[s_["name"]].initial_value = float(s_["init"])
+            for c_ in case["constants"]:
+                if c_["value"] is not None:
+                    elems[c_["name"]].equation = c_["value"]
         if "plot" in how and not vs:
             got = {}
             for nm in names:
